@@ -455,6 +455,13 @@ func bvbin(op string, a, b *Term) *Term {
 		if b.IsConst() && a.Op == "bvadd" && a.Args[1].IsConst() {
 			return bvbin("bvadd", a.Args[0], bvbin("bvadd", a.Args[1], b))
 		}
+		// x + (y - x) = y ; (y - x) + x = y
+		if b.Op == "bvsub" && b.Args[1] == a {
+			return b.Args[0]
+		}
+		if a.Op == "bvsub" && a.Args[1] == b {
+			return a.Args[0]
+		}
 	case "bvsub":
 		if b.IsConst() && b.Val == 0 {
 			return a
